@@ -143,6 +143,10 @@ def check_splitter_stat(case):
     vs, modes, vmode, mother, idx = make_splitter(case)
     names = case["species"]
     state, V, t = case["mother"]
+    if case.get("float_noise"):
+        # amounts that are whole numbers up to rounding noise (0.29 * 100 = 28.999999999999996): still that many molecules
+        state = [float(np.nextafter(v, 0.0)) if v > 0 else v for v in state]
+        res.label("amounts_with_rounding_noise")
     bin_species = [s for s in names if modes[s] == "binomial" and state[names.index(s)] > 0]
     res.label("splitter:" + case["cls"], "volume_mode:" + vmode, "noise:" + ("0" if not case["noise"] else ">0"))
     if not bin_species:
@@ -164,7 +168,7 @@ def check_splitter_stat(case):
                 D[s][j] = ds[idx[s]]
         out = []
         for s in bin_species:
-            nmol = int(state[names.index(s)])
+            nmol = int(round(state[names.index(s)]))
             if fixed_p and np.all(P == P[0]):
                 pmf = sst.binom.pmf(np.arange(nmol + 1), nmol, float(P[0]))
                 obs = np.bincount(D[s].astype(int), minlength=nmol + 1)[:nmol + 1]
@@ -554,5 +558,6 @@ def search(ctx):
     def stat_cases(draw):
         c = draw(splitter_cases(stat=True))
         c["n1"] = n1
+        c["float_noise"] = draw(st.integers(0, 3)) == 0
         return c
     ctx.run_hypothesis("splitter_stat", stat_cases(), check, ctx.share((6000 if t else 480) * scale), shrink=False)
